@@ -3,7 +3,7 @@ use rusty_variant::Variant;
 
 use crate::RuntimeError;
 use crate::interpreter::interpreter_trait::InterpreterTrait;
-use crate::interpreter::variant_casts::VariantCasts;
+use crate::interpreter::variant_casts::{VariantCasts, whole_number_to_variant};
 
 pub fn run<S: InterpreterTrait>(interpreter: &mut S) -> Result<(), RuntimeError> {
     let a: &Variant = &interpreter.context()[0];
@@ -16,9 +16,10 @@ pub fn run<S: InterpreterTrait>(interpreter: &mut S) -> Result<(), RuntimeError>
         )?,
         None => do_instr(1, a.to_str_unchecked(), b.to_str_unchecked())?,
     };
-    interpreter
-        .context_mut()
-        .set_built_in_function_result(BuiltInFunction::InStr, result);
+    interpreter.context_mut().set_built_in_function_result(
+        BuiltInFunction::InStr,
+        whole_number_to_variant(result as usize),
+    );
     Ok(())
 }
 
